@@ -678,8 +678,72 @@ def _runner(case):
         return dict(harness_error=traceback.format_exc(), events=[], reads=[], infos=[], timeout=False)
 
 
-def run_cases(cases, workers=16):
-    import concurrent.futures as cf
-    ctx = mp.get_context('fork')
-    with cf.ProcessPoolExecutor(max_workers=workers, mp_context=ctx, max_tasks_per_child=None) as ex:
-        return list(ex.map(_runner, cases, chunksize=1))
+def run_cases(cases, workers=16, hard_timeout=60):
+    """every scenario runs in its own forked process and process group; the group is killed as soon as
+    the result is in (or after `hard_timeout`), so nothing a scenario leaks can outlive it or block the check"""
+    results = [None] * len(cases)
+    pending = list(range(len(cases)))[::-1]
+    live = {}   # fd -> (index, pid, t0, buffer)
+
+    def reap(fd, why=None):
+        idx, pid, t0, buf = live.pop(fd)
+        try:
+            os.killpg(pid, signal.SIGKILL)
+        except OSError:
+            pass
+        try:
+            os.waitpid(pid, 0)
+        except OSError:
+            pass
+        os.close(fd)
+        data = b''.join(buf)
+        if why is None and data:
+            try:
+                results[idx] = pickle.loads(data)
+                return
+            except Exception:  # noqa
+                why = 'undecodable result'
+        results[idx] = dict(events=[], reads=[], infos=[], notes=[why or 'no result'], timeout=True, runner_killed=why or 'no result')
+
+    while pending or live:
+        while pending and len(live) < workers:
+            idx = pending.pop()
+            r, w = os.pipe()
+            pid = os.fork()
+            if pid == 0:
+                code = 0
+                try:
+                    os.setpgid(0, 0)
+                    os.close(r)
+                    for fd in list(live):
+                        try:
+                            os.close(fd)
+                        except OSError:
+                            pass
+                    data = pickle.dumps(_runner(cases[idx]))
+                    off = 0
+                    while off < len(data):
+                        off += os.write(w, data[off:off + 65536])
+                except BaseException:  # noqa
+                    code = 1
+                finally:
+                    os._exit(code)
+            os.close(w)
+            try:
+                os.setpgid(pid, pid)
+            except OSError:
+                pass
+            live[r] = (idx, pid, time.time(), [])
+        rl, _, _ = select.select(list(live), [], [], 0.5)
+        for fd in rl:
+            chunk = os.read(fd, 1 << 16)
+            if chunk:
+                live[fd][3].append(chunk)
+            else:
+                reap(fd)
+        now = time.time()
+        for fd in list(live):
+            idx = live[fd][0]
+            if now - live[fd][2] > max(hard_timeout, cases[idx].get('timeout', 30) + 15):
+                reap(fd, 'scenario exceeded the hard time limit')
+    return results
